@@ -911,11 +911,14 @@ Proof.
     assert (Hsb : x_state xb = Active) by (destruct R as [R1 _]; rewrite R1; exact Hsa).
     pose proof (rside_trans _ _ _ _ _ _ Hxa R) as R'.
     destruct rb as [u|e|s|].
-    + rewrite Hsb. cbn [closing_done]. rewrite andb_false_r. cbn [andb].
-      intros H. injection H as <- <- <-. split; [exact I|exact R'].
+    + change (x_state (set_unflushed xb true)) with (x_state xb).
+      rewrite Hsb. cbn [closing_done]. rewrite andb_false_r. cbn [andb].
+      intros H. injection H as <- <- <-. split; [exact I|].
+      unfold rside in *. cbn in *. exact R'.
     + destruct S as [S|[f' S]].
       * destruct e as [| |k| | | |]; try contradiction. destruct k; try contradiction.
-        intros H. injection H as <- <- <-. split; [exact I|exact R'].
+        intros H. injection H as <- <- <-. split; [exact I|].
+        unfold rside in *. cbn in *. exact R'.
       * injection S as ->.
         assert (Hbb : benign wb) by (destruct R' as [_ [_ [_ [_ [_ [_ [_ X]]]]]]]; exact X).
         pose proof (rside_trans _ _ _ _ _ _ R' (rside_set_additional xb wb f' Hbb)) as R2.
